@@ -382,6 +382,7 @@ def do_replay(pid, path, log):
         doc = json.load(f)
     if doc.get("engine") == "E2":
         import mirsym_run
+        doc["_path"] = path
         return mirsym_run.replay(doc, log)
     rp = replay.replay_both(doc["harness"], doc["values"], doc.get("features", []))
     log(f"replay {doc['harness']} '{doc['label']}': dev={rp['dev']} release={rp['release']}")
